@@ -451,8 +451,19 @@ def _pop_under_loop_invariant(g, n: ast.Expr, lst: str) -> bool:
     if loop is None or not loop.body:
         return False
     last = loop.body[-1]
-    if not (isinstance(last, ast.If) and not last.orelse and _is_empty_test(last.test, lst)
-            and len(last.body) == 1 and isinstance(last.body[0], ast.Break)):
+    closing = isinstance(last, ast.If) and not last.orelse and _is_empty_test(last.test, lst) \
+        and len(last.body) == 1 and isinstance(last.body[0], ast.Break)
+    if not closing:
+        # ... or the pop itself is directly followed by ``if <lst is empty>: ...; break``
+        par = getattr(n, "_parent", None)
+        for fld in ("body", "orelse"):
+            blk = getattr(par, fld, None)
+            if isinstance(blk, list) and n in blk:
+                i_ = blk.index(n)
+                nxt = blk[i_ + 1] if i_ + 1 < len(blk) else None
+                closing = isinstance(nxt, ast.If) and not nxt.orelse and _is_empty_test(nxt.test, lst) \
+                    and bool(nxt.body) and isinstance(nxt.body[-1], ast.Break)
+    if not closing:
         return False
     if any(isinstance(x, ast.Continue) for x in ast.walk(loop)):
         return False
